@@ -98,7 +98,7 @@ def run(ctx):
                 'random distances and frequency grids; direct convert_flux round trips A->B->A and A->B->C vs A->C; refusals. a case = one '
                 '(file, requested unit) read; non-trivial = stored != requested')
     ctx.assume('oracle: explicit cgs factors (1 mJy = 1e-26 erg/s/cm2/Hz, 1 W/m2 = 1e3 erg/s/cm2, L = F d^2 with d in cm as the statement says)',
-               'rtol 1e-12')
+               'rtol 1e-12', 'a file without the DISTANCE keyword is read as being at 1 kpc (the fallback the reader documents)')
     ctx.require_events('convert_flux:post', 'read:matrix', 'roundtrip:ABA', 'chain:ABC', 'refused:target', 'refused:stored')
     ctx.require_regimes('stored:desc-wav', 'stored:asc-wav', 'read-order:nu', 'read-order:wav', 'stored:nu-in-GHz', 'stored:no-distance', 'stored:error-column-other-unit')
     d = ctx.newdir('c15')
@@ -167,14 +167,20 @@ def run(ctx):
                                       'SED.read raised for supported units: %r' % (exc,), wit)
                         continue
                     ctx.event('read:matrix')
+                    d_use = d_cm
                     if spelling != '<SED.write>' and no_dist:
-                        # "d the SED's distance": without a DISTANCE keyword that is the distance the returned object reports
+                        # "d the SED's distance": without a DISTANCE keyword the reader assumes 1 kpc (its documented fallback), and
+                        # the returned object must say so
+                        d_use = KPC_CM
                         try:
-                            d_cm = float(r.distance.to(u.cm).value)
+                            d_obj = float(r.distance.to(u.cm).value)
                         except Exception:
-                            ctx.violation('read:no-distance', 'an SED read from a file without DISTANCE reports no distance', wit)
+                            d_obj = None
+                        if d_obj is None or abs(d_obj / KPC_CM - 1) > 1e-12:
+                            ctx.violation('read:no-distance-not-1kpc', 'an SED read from a file without DISTANCE does not report the 1 kpc it is documented to assume',
+                                          dict(wit, reported_cm=d_obj))
                             continue
-                        wit['distance_cm'] = d_cm
+                        wit['distance_cm'] = d_use
                     ok_unit = False
                     try:
                         ok_unit = r.flux.unit.is_equivalent(UNITS[b][0]) and r.error.unit.is_equivalent(UNITS[b][0])
@@ -185,8 +191,8 @@ def run(ctx):
                                       dict(wit, got_unit=str(getattr(r.flux, 'unit', None))))
                         continue
                     nu_r = np.asarray(r.nu.to(u.Hz).value, float)
-                    ref_f = from_base(b, to_base(a, fs, nu_s, d_cm), nu_s, d_cm)
-                    ref_e = from_base(b, to_base(a, es, nu_s, d_cm), nu_s, d_cm)
+                    ref_f = from_base(b, to_base(a, fs, nu_s, d_use), nu_s, d_use)
+                    ref_e = from_base(b, to_base(a, es, nu_s, d_use), nu_s, d_use)
                     gf = np.asarray(r.flux.to(UNITS[b][0]).value, float)
                     ge = np.asarray(r.error.to(UNITS[b][0]).value, float)
                     if order == 'wav':          # ascending wavelength = descending frequency: pair cells by frequency
